@@ -103,6 +103,27 @@ Theorem C09_exact_multiset_refuted_legacy :
                         rel_pc 0 s1 = Some RStopBegin).
 Proof. exact exact_multiset_refuted_legacy. Qed.
 
+(* [good_pool] cannot be dropped - H4 of the second audit, recorded finding
+   same-name-different-object:inplace-reload: with two DISTINCT runnables x, x' of equal String(), Reload([x'])
+   on configuration [x] is taken in place: x' (never started) receives ReloadWithConfig and becomes the
+   configuration, x keeps running outside it (neither the multiset nor the set form of C09_exact holds);
+   Stop() then makes Run() call Stop() on x', which (blocking style) waits for a Run that never started: no
+   internal step, no child-owed step and no return is enabled - Run() and Stop() hang *)
+Theorem C09_exact_refuted_without_good_pool :
+  ~ good_pool h4_pool /\ Forall (good_label h4_pool) h4_sched /\
+  membership_changed h4_pool [(0, 0)]%N [(1, 1)]%N = false /\
+  (exists s, run (step h4_pool) init (firstn 14 h4_sched) = Some s /\
+             fsm s = FRunning /\ reload_mu s = None /\
+             ids (entries_of s) = [1%N] /\ map k_child (cur_kids s) = [0%N] /\
+             ~ (forall c, In c (ids (entries_of s)) <-> In c (map k_child (cur_kids s))) /\
+             option_map r_calls (nth_error (reloaders s) 0) = Some [(1%N, Some 1%N)]) /\
+  (exists s, run (step h4_pool) init h4_sched = Some s /\
+             runt s = TStopWait /\ nth_error (stoppers s) 0 = Some SWaiting /\
+             option_map w_pc (nth_error (workers s) 0) = Some WCalled /\ ever 1%N s = false /\
+             forallb kdone (kids s) = true /\
+             none_enabled h4_pool s (taus s ++ [LWRet 0 1%N; LSRet 0; LRunRet None]) = true).
+Proof. exact exact_refuted_without_good_pool. Qed.
+
 (* the second half holds at every moment of every schedule, not only while Running ... *)
 Theorem C09_older_generations_finished : forall P s,
   fix_c09 P = true -> fix_stale P = true -> reach P s ->
@@ -196,6 +217,7 @@ Print Assumptions C09_reload_mutex.
 Print Assumptions C09_exact.
 Print Assumptions C09_exact_multiset.
 Print Assumptions C09_exact_multiset_refuted_legacy.
+Print Assumptions C09_exact_refuted_without_good_pool.
 Print Assumptions C09_exact_at_boot.
 Print Assumptions C09_stop_targets_launched.
 Print Assumptions C09_none_survive.
